@@ -41,6 +41,7 @@ const c20MarkField = "c20_cut_mark"
 type c20Input struct {
 	committed atomic.Bool  // what PassEvent answers: the input recognises the event as already committed
 	suggest   decoder.Type // what the input suggests when the pipeline decoder is "auto" (as the k8s input does)
+	saved     atomic.Value // map[StreamName]int64: when set, PassEvent answers as the file input does
 }
 
 func (p *c20Input) Start(_ AnyConfig, params *InputPluginParams) {
@@ -768,13 +769,14 @@ type c20CriCase struct {
 }
 
 type c20MiscStats struct {
-	mu                            sync.Mutex
-	criExecuted, criDelivered     int
-	xlExecuted, xlExempt, xlDrift int
-	rlExecuted, rlDrift           int
-	skExecuted, skDrift           int
-	pipelines                     int
-	viols                         []*c20SizeViol
+	mu                                  sync.Mutex
+	criExecuted, criDelivered           int
+	xlExecuted, xlExempt, xlDrift       int
+	rlExecuted, rlDrift                 int
+	skExecuted, skDrift                 int
+	ofsExecuted, ofsMustAdmit, ofsDrift int
+	pipelines                           int
+	viols                               []*c20SizeViol
 }
 
 func (st *c20MiscStats) add(v *c20SizeViol) {
@@ -1099,6 +1101,93 @@ func c20RunSkGroup(id int, cases []*c20SkCase, st *c20MiscStats) {
 	}
 }
 
+// ---------------------------------------------------------------- the Offsets argument
+//
+// Saved per-stream offsets (built with the real NewOffsets / SliceFromMap, as the file input does) x decoder
+// (raw, json without / with a stream field, cri) x antispam off / on.  The input's PassEvent answers like the file
+// input's.  A record may be refused as "already committed" only if the saved offset of its OWN stream is not older
+// than the record; otherwise it must be admitted and delivered.
+
+type c20OfsCase struct {
+	Dec       string `json:"dec"`
+	Anti      bool   `json:"anti"`
+	Cur       int64  `json:"cur"`
+	NotSet    int64  `json:"notset"`
+	Stderr    int64  `json:"stderr"`
+	Stdout    int64  `json:"stdout"`
+	MayRefuse bool   `json:"mayRefuse"`
+	Mret      int    `json:"mret"`
+}
+
+func c20RunOfsGroup(id int, cases []*c20OfsCase, st *c20MiscStats) {
+	c0 := cases[0]
+	s := &Settings{Decoder: map[string]string{"raw": "raw", "json": "json", "json+stream": "json", "cri": "cri"}[c0.Dec],
+		Antispam: AntispamSettings{Threshold: DefaultAntispamThreshold, MaintenanceInterval: time.Hour}}
+	if c0.Anti {
+		s.Antispam.Threshold = 1 << 30
+	}
+	p, in, out := c20NewPipeline(fmt.Sprintf("c20ofs%d", id), s)
+	p.Start()
+	defer p.Stop()
+	st.mu.Lock()
+	st.pipelines++
+	st.mu.Unlock()
+	line := map[string]string{
+		"raw":         "plain record\n",
+		"json":        `{"n":1}` + "\n",
+		"json+stream": `{"stream":"stderr","n":1}` + "\n",
+		"cri":         "2016-10-06T00:17:09.669794202Z stderr F hello\n",
+	}[c0.Dec]
+	accepted := int64(0)
+	for _, c := range cases {
+		func() {
+			mk := func(kind, want, got string) *c20SizeViol {
+				b, _ := json.Marshal(c)
+				return &c20SizeViol{Kind: kind, Decoder: c.Dec, Why: "offsets " + string(b), Input: line, Want: want, Got: got,
+					Harness: "pipeline-offsets", RawCase: c}
+			}
+			defer func() {
+				if r := recover(); r != nil {
+					v := mk("panic", "", "")
+					v.Panic = fmt.Sprint(r)
+					st.add(v)
+				}
+			}()
+			saved := map[StreamName]int64{}
+			for name, v := range map[StreamName]int64{"not_set": c.NotSet, "stderr": c.Stderr, "stdout": c.Stdout} {
+				if v >= 0 {
+					saved[name] = v
+				}
+			}
+			in.saved.Store(saved)
+			seq := p.In(SourceID(5), "c20ofs", NewOffsets(c.Cur, SliceFromMap(saved)), []byte(line), false, nil)
+			refused := seq == EventSeqIDError
+			if !refused {
+				accepted++
+			}
+			st.mu.Lock()
+			st.ofsExecuted++
+			if !c.MayRefuse {
+				st.ofsMustAdmit++
+			}
+			if refused != (c.Mret == 0) {
+				st.ofsDrift++
+			}
+			st.mu.Unlock()
+			if refused && !c.MayRefuse {
+				st.add(mk("refused_without_reason", "admitted: the saved offset of the record's own stream does not cover it", "In returned 0"))
+			}
+		}()
+	}
+	deadline := time.Now().Add(30 * time.Second)
+	for out.count.Load() < accepted && time.Now().Before(deadline) {
+		time.Sleep(time.Millisecond)
+	}
+	if out.count.Load() != accepted {
+		st.add(&c20SizeViol{Kind: "not_delivered", Harness: "pipeline-offsets", Got: fmt.Sprintf("accepted %d, delivered %d", accepted, out.count.Load())})
+	}
+}
+
 // ---------------------------------------------------------------- driver
 
 func TestVerifC20(t *testing.T) {
@@ -1124,6 +1213,8 @@ func TestVerifC20(t *testing.T) {
 	rlGroups := map[string][]*c20RlCase{}
 	var rlOrder []string
 	skGroups := map[bool][]*c20SkCase{}
+	ofsGroups := map[string][]*c20OfsCase{}
+	var ofsOrder []string
 	sc := bufio.NewScanner(f)
 	sc.Buffer(make([]byte, 1<<20), 1<<24)
 	for sc.Scan() {
@@ -1152,6 +1243,16 @@ func TestVerifC20(t *testing.T) {
 				rlOrder = append(rlOrder, k)
 			}
 			rlGroups[k] = append(rlGroups[k], c)
+		} else if head.Part == "offs" {
+			c := &c20OfsCase{}
+			if err := json.Unmarshal(sc.Bytes(), c); err != nil {
+				t.Fatalf("bad offsets case: %v", err)
+			}
+			k := fmt.Sprint(c.Dec, "/", c.Anti)
+			if _, ok := ofsGroups[k]; !ok {
+				ofsOrder = append(ofsOrder, k)
+			}
+			ofsGroups[k] = append(ofsGroups[k], c)
 		} else if head.Part == "skey" {
 			c := &c20SkCase{}
 			if err := json.Unmarshal(sc.Bytes(), c); err != nil {
@@ -1238,6 +1339,16 @@ func TestVerifC20(t *testing.T) {
 			}(id, dec, anti)
 		}
 	}
+	for _, k := range ofsOrder {
+		id++
+		wg.Add(1)
+		sem <- struct{}{}
+		go func(id int, cs []*c20OfsCase) {
+			defer wg.Done()
+			defer func() { <-sem }()
+			c20RunOfsGroup(id, cs, mst)
+		}(id, ofsGroups[k])
+	}
 	for _, k := range rlOrder {
 		id++
 		wg.Add(1)
@@ -1312,7 +1423,8 @@ func TestVerifC20(t *testing.T) {
 	res := map[string]interface{}{
 		"misc": map[string]interface{}{"cri_executed": mst.criExecuted, "cri_delivered": mst.criDelivered, "xlist_executed": mst.xlExecuted,
 			"xlist_exempt": mst.xlExempt, "xlist_drift": mst.xlDrift, "rlist_in_calls": mst.rlExecuted, "rlist_drift": mst.rlDrift,
-			"skey_in_calls": mst.skExecuted, "skey_drift": mst.skDrift, "pipelines": mst.pipelines, "violations": mst.viols},
+			"skey_in_calls": mst.skExecuted, "skey_drift": mst.skDrift,
+			"offsets_in_calls": mst.ofsExecuted, "offsets_must_admit": mst.ofsMustAdmit, "offsets_drift": mst.ofsDrift, "pipelines": mst.pipelines, "violations": mst.viols},
 		"sched": map[string]interface{}{"executed": cst.executed, "steps": cst.steps, "pipelines": cst.groups, "banned_in_first_burst": cst.sawBan,
 			"banned_then_admitted": cst.bannedThenAdmit, "interval_ms": c20SchedInterval.Milliseconds(), "violations": cv, "violation_counts": cst.counts},
 		"size": map[string]interface{}{"executed": sst.executed, "delivered": sst.delivered, "refused": sst.refused,
